@@ -752,6 +752,14 @@ class Interp:
             else:
                 r = (0, 1)
             term = (base,) + tuple(sorted((va, vb)))
+        elif base == 'BitAnd' and tn != 'bool' and ((vb in D.CONSTVAL and D.CONSTVAL[vb] > 0 and (D.CONSTVAL[vb] & (D.CONSTVAL[vb] + 1)) == 0)
+                                                      or (va in D.CONSTVAL and D.CONSTVAL[va] > 0 and (D.CONSTVAL[va] & (D.CONSTVAL[va] + 1)) == 0)):
+            # x & (2^k - 1) is the Euclidean remainder of x modulo 2^k, for signed x too (two's complement)
+            x, mask = (va, D.CONSTVAL[vb]) if vb in D.CONSTVAL else (vb, D.CONSTVAL[va])
+            if x in D.CONSTVAL:
+                return const_int(D.CONSTVAL[x] & mask, tn)
+            q_, r_ = D.divmod_euclid(st, x, mask + 1, force=True)        # (always the Euclidean triple: the same value has the same name on every path)
+            return ('i', r_, tn)
         elif base in ('Shl', 'Shr', 'BitAnd', 'BitOr', 'BitXor'):
             if base == 'BitAnd' and ia[0] >= 0 and ib[0] >= 0:
                 r = (0, min(ia[1], ib[1]))
@@ -1946,6 +1954,21 @@ class Interp:
                     return []
         return [(t['target'], st)]
 
+    def _note_failing(self, st, fid, path, keep):
+        """a `match` took the failing arm of a Result / Option (Err / None only): remember where that value came from, for a panic raised in the
+        same function on this path (`match r { Ok(v) => v, Err(_) => panic!(..) }` is `r.unwrap_or_else(|_| panic!(..))` written out)"""
+        from .models import RESULT, OPTION, origin_of, cause_of, none_org
+        bad = 1 if path == RESULT else 0 if path == OPTION else None
+        if bad is None or set(keep) != {bad}:
+            return
+        cause = None
+        for f in keep[bad]:
+            cause = cause or cause_of(origin_of(self, st, f))
+        if cause is None and path == OPTION:
+            cause = none_org(('e', path, keep))
+        if cause:
+            st.notes = tuple(n for n in st.notes if not (isinstance(n, tuple) and n and n[0] == 'failing')) + (('failing', fid, cause),)
+
     def exec_switch(self, st, fid, fn, body, bb, t):
         d = self.operand(st, fid, t['discr'])
         out = []
@@ -1974,6 +1997,7 @@ class Interp:
                     if not keep:
                         continue
                     self.write_resolved(s2, rp, ('e', path, keep))
+                    self._note_failing(s2, fid, path, keep)
             if not D.set_iv(s2, vid, val, val):
                 continue
             out.append((tgt, s2))
